@@ -102,7 +102,7 @@ func c08Pool() (pool []srule) {
 		{}, {"script"}, {"image"}, {"script", "image"}, {"~script"}, {"third-party"}, {"~third-party"}, {"important"}, {"match-case"},
 		{"domain=src.org"}, {"domain=other.org"}, {"domain=src.org|other.org"}, {"domain=~src.org"},
 		{"denyallow=x.com"}, {"denyallow=y.com"}, {"dnstype=A"}, {"dnstype=AAAA"}, {"dnstype=~A"},
-		{"ctag=pc"}, {"ctag=phone"}, {"client=10.0.0.1"}, {"client=10.0.0.2"},
+		{"ctag=pc"}, {"ctag=phone"}, {"client=10.0.0.1"}, {"client=10.0.0.2"}, {"client=~laptop"}, {"client=~Laptop"},
 		{"dnsrewrite=1.2.3.4"}, {"dnsrewrite=2.3.4.5"}, {"dnsrewrite=NOERROR;MX;10 mx.example"}, {"dnsrewrite=NOERROR;HTTPS;10 svc.example alpn=h2"}, {"dnsrewrite=NOERROR;SRV;10 60 8080 srv.example"},
 		{"script", "third-party"}, {"third-party", "script"}, {"script", "domain=src.org"}, {"important", "script"},
 	}
@@ -246,8 +246,8 @@ func init() {
 		})
 
 		// --- multiplicity layer
-		baseIdx := []int{0, 1, 7, 9, 13, 31, 33, 36} // plain, script, important, domain, denyallow, @@, @@important, P2
-		extraIdx := []int{1, 2, 5, 7, 8, 9, 13, 15, 18, 20, 27, 32}
+		baseIdx := []int{0, 1, 7, 9, 13, 33, 35, 38} // plain, script, important, domain, denyallow, @@, @@important, P2
+		extraIdx := []int{1, 2, 5, 7, 8, 9, 13, 15, 18, 20, 29, 34}
 		kmax := 2
 		if c.Thorough() {
 			kmax = 3
@@ -419,9 +419,6 @@ func c08EngineLayer(x *c08Ctx, c *Ctx) int64 {
 		{false, c08P1, nil}, {false, c08P1, []string{"important"}}, {true, c08P1, nil}, {false, c08P1, []string{"dnstype=A"}}, {false, c08P1, []string{"dnstype=~AAAA"}},
 		{false, c08P1, []string{"ctag=pc"}}, {false, c08P1, []string{"client=10.0.0.1"}}, {false, c08P1, []string{"denyallow=x.com"}}, {false, c08P1, []string{"dnsrewrite=1.2.3.4"}},
 	}
-	webReq := func() *rules.Request {
-		return rules.NewRequest("http://ads.example.com/x", "http://src.org/", rules.TypeScript)
-	}
 	dnsReq := scenDNSReq()
 	byText := map[string]srule{}
 	for _, s := range append(append([]srule{}, web...), dns...) {
@@ -430,13 +427,20 @@ func c08EngineLayer(x *c08Ctx, c *Ctx) int64 {
 	webVerdict := func(lines []string) string {
 		st := stringStorage(joinLines(lines) + "\n")
 		e := urlfilter.NewEngine(st)
-		m := e.MatchRequest(webReq())
 		ne := urlfilter.NewNetworkEngine(st)
-		r2, _ := ne.Match(webReq())
-		if isBad(m.BasicRule) || isBad(r2) {
-			return "badfilter rule returned"
+		var sb strings.Builder
+		// a script request (every rule of the pool matches) and an image request
+		// (some do not, so a badfilter rule can be the only rule that matches)
+		for _, t := range []rules.RequestType{rules.TypeScript, rules.TypeImage} {
+			req := rules.NewRequest("http://ads.example.com/x", "http://src.org/", t)
+			m := e.MatchRequest(req)
+			r2, _ := ne.Match(req)
+			if isBad(m.BasicRule) || isBad(r2) || isBad(m.GetBasicResult()) {
+				return "badfilter rule returned"
+			}
+			sb.WriteString("engine=" + verdictOf(m.GetBasicResult(), byText) + " netengine=" + verdictOf(r2, byText) + "; ")
 		}
-		return "engine=" + verdictOf(m.GetBasicResult(), byText) + " netengine=" + verdictOf(r2, byText)
+		return sb.String()
 	}
 	dnsVerdict := func(lines []string) string {
 		return dnsVerdictOf(lines, byText, dnsReq) + " | with a hosts line: " + dnsVerdictOf(append([]string{"0.0.0.0 ads.example.com"}, lines...), byText, dnsReq)
